@@ -5,6 +5,7 @@ import (
 	"sort"
 	"sync/atomic"
 
+	"github.com/RoaringBitmap/roaring/v2"
 	"github.com/RoaringBitmap/roaring/v2/roaring64"
 	"verifmc/internal/ev"
 	"verifmc/internal/explore"
@@ -437,6 +438,12 @@ func pool64(quick bool) []recipe64 {
 			add(w, vs...)
 		}),
 		mk("{full inner chunk at bucket 2}", func(w *W64) { rng(w, 2<<32, 2<<32+65536) }),
+		mk("Roaring32AsRoaring64({})", func(w *W64) { w.B = roaring64.Roaring32AsRoaring64(roaring.New()) }),
+		mk("Roaring32AsRoaring64({1, 70000})", func(w *W64) {
+			w.B = roaring64.Roaring32AsRoaring64(roaring.BitmapOf(1, 70000))
+			w.M.Add(1)
+			w.M.Add(70000)
+		}),
 		mk("{run chunks with several runs in buckets 0 and 1}", func(w *W64) {
 			// a batch boundary of the many-iterator then falls inside a run that is not the chunk's last
 			for _, bk := range []uint64{0, 1 << 32} {
